@@ -22,7 +22,10 @@ def nThreads : Nat := 4
 def parseXAct (w : String) : Option XAct :=
   match w.toList with
   | ['x'] => some (.act .exit)
-  | ['t'] => some (.act .exitLater)
+  | ['t'] => some (.act (.exitLater 5))
+  | ['R'] => some (.act .nestedRun)
+  | 't' :: r => (String.ofList r).toNat?.bind fun w => if 0 < w ∧ w < 4611686018427387904 then some (.act (.exitLater w)) else none
+  | 'r' :: r => (String.ofList r).toNat?.bind fun k => if k < 64 then some (.act (.run k)) else none
   | ['!'] => some (.act .throw)
   | 'i' :: r => (String.ofList r).toNat?.bind fun k => if k < 64 then some (.act (.inLoop k)) else none
   | 'n' :: r => (String.ofList r).toNat?.bind fun k => if k < 64 then some (.act (.next k)) else none
@@ -58,17 +61,34 @@ structure TAcc where
   due : Bool := false                         -- the virtual clock passed the exit timer's deadline
   thrown : Bool := false                      -- the running callable threw: the rest of its script is skipped
   execs : Nat := 0
+  sel : Bool := false                         -- select engine
+  timerIds : List Nat := []                   -- run ids of the loop's own "release the timer record" tasks
+  leakOk : Bool := false                      -- the script cancelled one of those (by guessing its id): the record is never released
+  nulls : List Nat := []                      -- templates whose callable is an empty std::function
 
 def TAcc.ext (a : TAcc) (k : Nat) : List XAct := (a.progs.lookup k).getD []
-def TAcc.cfg (a : TAcc) : Cfg := fixedCfg fun k => stripBody (a.ext k)
+def TAcc.cfg (a : TAcc) : Cfg := { fixedCfg (fun k => stripBody (a.ext k)) with selectEngine := a.sel }
 def TAcc.fail (a : TAcc) (m : String) : TAcc := if a.err.isSome then a else { a with err := some s!"op#{a.nops} {m}" }
+def TAcc.failM (a : TAcc) (m : String) : TAcc := if a.err.isSome then a else { a with err := some s!"M: op#{a.nops} {m}" }
 def TAcc.tag (a : TAcc) (t : String) : TAcc := if a.tags.contains t then a else { a with tags := a.tags ++ [t] }
+/-- remember the script of a submitted callable; an empty std::function is never called (no `E` line) -/
+def TAcc.noteSub (a : TAcc) (id k : Nat) : TAcc :=
+  { a with bodies := (id, a.ext k) :: a.bodies, internal := if a.nulls.contains k then id :: a.internal else a.internal }
 
 def expectLine (a : TAcc) (want : String) : TAcc :=
   if a.err.isSome then a else
   match a.tl with
   | l :: rest => if l == want then { a with tl := rest } else a.fail s!"impl=[{l}] model=[{want}]"
   | [] => a.fail s!"impl=<missing> model=[{want}]"
+
+/-- model-internal observable: the timeout handed to the poll (a harmless rewrite may wake earlier and wait again) -/
+def expectWait (a : TAcc) : TAcc :=
+  if a.err.isSome then a else
+  let want := s!"M wait {pollTimeout a.cfg a.s}"
+  let a := if pollTimeout a.cfg a.s ≥ 2147483647 then a.tag "wait>=2^31" else if pollTimeout a.cfg a.s > 0 then a.tag "wait>0" else a
+  match a.tl with
+  | l :: rest => if l == want then { a with tl := rest } else a.failM s!"impl=[{l}] model=[{want}]"
+  | [] => a.failM s!"impl=<missing> model=[{want}]"
 
 /-- apply one model step; it must be enabled -/
 def doStep (a : TAcc) (st : Step) : TAcc :=
@@ -81,8 +101,9 @@ def phaseName : Phase → String
 /-- exitLoop()/exitLoop(ms) through model step `st`: disabling an armed exit timer makes the loop submit a
 deferred task to itself (no `E`/`S` line for it) -/
 def exitStep (a : TAcc) (st : Step) (later : Bool) : TAcc :=
-  let a := if a.s.exitTimer then { a.tag "exit-timer-dropped" with internal := (a.s.nextAlloc + 2) :: a.internal } else a
-  let a := if later then { a.tag "exit-timer-armed" with due := false } else a
+  let nid := a.s.nextAlloc + 2
+  let a := if a.s.exitTimer then { a.tag "exit-timer-dropped" with internal := nid :: a.internal, timerIds := nid :: a.timerIds } else a
+  let a := if later then a.tag "exit-timer-armed" else a
   doStep a st
 
 /-- cross-thread runInLoop as a model step + expected `S id` line -/
@@ -91,7 +112,7 @@ def crossSubmit (a : TAcc) (t k : Nat) (suffix : String) : TAcc :=
   let a := if a.s.keepRunning == false && (a.s.phase == .wake || a.s.phase == .next) then a.tag "submit-while-exiting" else a
   let a := if a.s.phase == .idle && a.runs > 0 then a.tag "submit-between-runs" else a
   let a := doStep a (.submit t k)
-  expectLine { a with bodies := (id, a.ext k) :: a.bodies } ("S " ++ toString id ++ suffix)
+  expectLine (a.noteSub id k) ("S " ++ toString id ++ suffix)
 
 /-- the script of the callable that was just popped -/
 def runScript (a : TAcc) (b : List XAct) : TAcc :=
@@ -100,20 +121,29 @@ def runScript (a : TAcc) (b : List XAct) : TAcc :=
     match x with
     | .act (.inLoop k) =>
         let id := a.s.inAlloc + 2
-        expectLine { (doStep a .act) with bodies := (id, a.ext k) :: a.bodies } ("S " ++ toString id)
+        expectLine ((doStep a .act).noteSub id k) ("S " ++ toString id)
     | .act (.next k) =>
         let id := a.s.nextAlloc + 2
-        expectLine { (doStep a .act) with bodies := (id, a.ext k) :: a.bodies } ("S " ++ toString id)
+        expectLine ((doStep a .act).noteSub id k) ("S " ++ toString id)
+    | .act (.run k) =>
+        let id := a.s.nextAlloc + 2      -- on the loop thread run() is runNext (checked by the model step itself)
+        expectLine (((doStep a .act).tag "run-in-task").noteSub id k) ("S " ++ toString id)
+    | .act .nestedRun =>
+        if a.s.efd.isSome then expectLine ((doStep a .act).tag "nested-runLoop") "P nested-returned"
+        else
+          -- not running (destructor / cleanup() drain): the harness does not make the call, the act is dropped from the script
+          expectLine { a with s := { a.s with cur := a.s.cur.tail } } "P nested-skipped"
     | .act (.cancel id) =>
         let r := cancelRet a.s id
+        let a := if r && a.timerIds.contains id then { a.tag "cancel-of-internal-task" with leakOk := true } else a
         let a := a.tag (if r then (if hasId a.s.tmpQ id then "cancel-batch-hit" else "cancel-queue-hit")
                         else if id ∈ a.s.executed then "cancel-after-exec" else if id ∈ idsOf a.s.dQ then "cancel-in-drain-miss" else "cancel-miss")
         expectLine (doStep a .act) ("C " ++ toString id ++ (if r then " 1" else " 0"))
     | .act .exit => (exitStep a .act false).tag "exit-in-task"
-    | .act .exitLater => exitStep a .act true
+    | .act (.exitLater _) => exitStep a .act true
     | .act .throw => { (doStep a .act).tag "throw" with thrown := true }
     | .cross t k =>
-        if t ≥ nThreads || t == a.s.loopTid || a.late.isSome || (a.s.phase == .drain && a.s.destroying) then
+        if t ≥ nThreads || t == a.s.loopTid || a.late.isSome || (a.s.phase == .drain && a.s.destroying && !a.s.userCleanup) then
           expectLine a "W skip"
         else if a.s.phase == .drain then
           expectLine ({ a with late := some (t, k) }.tag "submit-blocked-by-drain") "W blocked"
@@ -142,24 +172,35 @@ def drain (a : TAcc) (gens : Nat) : Nat → TAcc
     if a.err.isSome then a else
     if valid a.s .drainGen then drain (doStep a .drainGen) (gens + 1) n
     else if valid a.s .drainExec then
-      drain (afterPop ((doStep a .drainExec).tag (if a.s.destroying then "exec-in-destructor" else "exec-in-exit-drain"))) gens n
+      drain (afterPop ((doStep a .drainExec).tag (if a.s.userCleanup then "exec-in-cleanup" else if a.s.destroying then "exec-in-destructor" else "exec-in-exit-drain"))) gens n
     else
       let a := if gens ≥ 2 then a.tag "drain-generations>=2" else a
       let a := if gens ≥ 100 then a.tag "drain-bound-hit" else a
-      doStep a .drainEnd
+      -- destructor: ~CommonLoop deletes the exit timer (an armed one posts an internal task) and drains again
+      let second := a.s.destroying && !a.s.userCleanup && !a.s.finalDrain
+      let nid := a.s.nextAlloc + 2
+      let a := if second && a.s.exitTimer then { a.tag "exit-timer-armed-at-destruction" with internal := nid :: a.internal, timerIds := nid :: a.timerIds } else a
+      let a := doStep a .drainEnd
+      if second then drain a 0 n else a
 
-def finishExit (a : TAcc) : TAcc :=
-  let a := expectLine a "P exited"
+def finishExit (a : TAcc) (line : String := "P exited") : TAcc :=
+  let a := expectLine a line
   match a.late with
   | some (t, k) => crossSubmit { a with late := none } t k " late"
   | none => a
 
 def onePass (a : TAcc) (stop : Bool) : TAcc :=
+  let a := match a.s.poll with
+    | .intr => a.tag "poll-eintr" | .err => a.tag "poll-error" | .spurious => a.tag "poll-spurious" | .ok => a
+  let a := if a.s.poll != .ok && !a.s.inLoopQ.isEmpty then a.tag "poll-fault-with-work-queued" else a
   let a := doStep a .passBegin
   let a := if stop then exitStep a (.cbAct .exit) false else a
-  let a := if a.s.exitTimer && a.due then { (doStep a .timerExit).tag "exit-timer-fired" with due := false } else a
+  let a := if a.s.timerDue then (doStep a .timerExit).tag "exit-timer-fired" else a
+  if a.s.broke then
+    finishExit (drain ((doStep a .passBreak).tag "select-break") 0 1000000)
+  else
   let a := if a.s.wakeSeen then
-             doStep (if a.runs ≥ 2 then a.tag "wake-after-rerun" else a.tag "wake") .passWake
+             doStep ((if a.runs ≥ 2 then a.tag "wake-after-rerun" else a.tag "wake") |> fun a => if a.s.rdFail then a.tag "read-fault" else a) .passWake
            else doStep (if !a.s.inLoopQ.isEmpty then a.tag "UNWOKEN" else a) .passSkip
   let a := batch a 100000
   let a := doStep a .passNext
@@ -167,7 +208,7 @@ def onePass (a : TAcc) (stop : Bool) : TAcc :=
   let a := batch a 100000
   let a := doStep a .passEnd
   if a.err.isSome then a else
-  if a.s.phase == .poll then expectLine a "P parked"
+  if a.s.phase == .poll then expectWait (expectLine a "P parked")
   else finishExit (drain a 0 1000000)
 
 def opDestroy (a : TAcc) (t : Nat) : TAcc :=
@@ -175,7 +216,19 @@ def opDestroy (a : TAcc) (t : Nat) : TAcc :=
   let a := drain a 0 1000000
   let a := expectLine a "P destroyed"
   let a := if !(pend a.s).isEmpty then a.tag "dropped-after-100-generations" else a
-  { a with s := init, bodies := [], runs := 0, internal := [], due := false }
+  { a with s := init, bodies := [], runs := 0, internal := [], timerIds := [], due := false }
+
+/-- the public cleanup() while idle: the drain of loop exit without a loop -/
+def opCleanup (a : TAcc) (t : Nat) : TAcc :=
+  let a := doStep (a.tag "cleanup") (.cleanup t)
+  let a := drain a 0 1000000
+  let a := if !(pend a.s).isEmpty then a.tag "dropped-after-100-generations" else a
+  finishExit a "P cleaned"
+
+def parseFault : String → Option Fault
+  | "pintr" => some (.poll .intr) | "perr" => some (.poll .err) | "pspur" => some (.poll .spurious) | "pok" => some (.poll .ok)
+  | "wr" => some .wrFail | "rd" => some .rdFail | "efd" => some .efdFail
+  | _ => none
 
 def thr (w : String) : Option Nat := w.toNat?.bind fun t => if t < nThreads then some t else none
 def tmpl (w : String) : Option Nat := w.toNat?.bind fun k => if k < 64 then some k else none
@@ -187,11 +240,38 @@ def stepOp (a : TAcc) (line : String) : TAcc :=
   let idle := a.s.phase == .idle
   let bad := expectLine a "bad-op"
   match words line with
-  | ["engine", e] => if first && (e == "epoll" || e == "select") then expectLine (a.tag e) "P engine" else bad
+  | ["engine", e] => if first && (e == "epoll" || e == "select") then expectLine { a.tag e with sel := e == "select" } "P engine" else bad
   | ["prog", k, b] =>
-      match tmpl k, parseBody b with
-      | some k, some b => expectLine { a with progs := (k, b) :: a.progs } "P prog"
+      match tmpl k with
+      | some k =>
+          if b == "~" then expectLine { a.tag "null-callable" with progs := (k, []) :: a.progs, nulls := k :: a.nulls } "P prog" else
+          match parseBody b with
+          | some b => expectLine { a with progs := (k, b) :: a.progs, nulls := a.nulls.filter (· != k) } "P prog"
+          | none => bad
+      | none => bad
+  | ["srun", t, k] =>
+      match thr t, tmpl k with
+      | some t, some k =>
+          if idle then
+            let id := a.s.nextAlloc + 2
+            expectLine (((doStep a (.idleAct t (.run k))).tag "run-idle").noteSub id k) ("S " ++ toString id)
+          else if t == a.s.loopTid then bad
+          else
+            let id := a.s.inAlloc + 2
+            expectLine (((doStep a (.submitRun t k)).tag "run-cross").noteSub id k) ("S " ++ toString id)
       | _, _ => bad
+  | ["fault", f] =>
+      match parseFault f with
+      | some f => expectLine ((doStep a (.fault f)).tag ("fault-" ++ (match f with | .poll _ => "poll" | .wrFail => "write" | .rdFail => "read" | .efdFail => "eventfd"))) "P fault"
+      | none => bad
+  | ["wl", x, y] =>
+      match x.toNat?, y.toNat? with
+      | some x, some y => if x < 18446744073709551616 ∧ y < 18446744073709551616 then expectLine ((doStep a (.setWL x y)).tag "waterline") "P wl" else bad
+      | _, _ => bad
+  | ["cleanup", t] =>
+      match thr t with
+      | some t => if !idle then bad else opCleanup a t
+      | none => bad
   | ["sub", t, k] =>
       match thr t, tmpl k with
       | some t, some k => if !idle && t == a.s.loopTid then bad else crossSubmit a t k ""
@@ -201,13 +281,14 @@ def stepOp (a : TAcc) (line : String) : TAcc :=
       | some t, some k =>
           if !idle then bad else
           let id := a.s.nextAlloc + 2
-          expectLine { (doStep a (.idleAct t (.next k))) with bodies := (id, a.ext k) :: a.bodies } ("S " ++ toString id)
+          expectLine ((doStep a (.idleAct t (.next k))).noteSub id k) ("S " ++ toString id)
       | _, _ => bad
   | ["cancel", t, id] =>
       match thr t, id.toNat? with
       | some t, some id =>
           if !idle then bad else
           let r := cancelRet a.s id
+          let a := if r && a.timerIds.contains id then { a.tag "cancel-of-internal-task" with leakOk := true } else a
           expectLine ((doStep a (.idleAct t (.cancel id))).tag (if r then "cancel-idle-hit" else "cancel-miss")) ("C " ++ toString id ++ (if r then " 1" else " 0"))
       | _, _ => bad
   | ["exit", t] =>
@@ -216,9 +297,17 @@ def stepOp (a : TAcc) (line : String) : TAcc :=
       | none => bad
   | ["exitt", t] =>
       match thr t with
-      | some t => if !idle then bad else expectLine (exitStep a (.idleAct t .exitLater) true) "P exit"
+      | some t => if !idle then bad else expectLine (exitStep a (.idleAct t (.exitLater 5)) true) "P exit"
       | none => bad
-  | ["tick"] => expectLine { a with due := a.due || a.s.exitTimer } "P tick"
+  | ["exitt", t, w] =>
+      match thr t, w.toNat? with
+      | some t, some w => if !idle || w == 0 || w ≥ 4611686018427387904 then bad else expectLine (exitStep a (.idleAct t (.exitLater w)) true) "P exit"
+      | _, _ => bad
+  | ["tick"] => expectLine (doStep a (.tick 10)) "P tick"
+  | ["tick", d] =>
+      match d.toNat? with
+      | some d => if d ≤ 4398046511104 then expectLine (doStep a (.tick d)) "P tick" else bad
+      | none => bad
   | ["run", m, t] =>
       match thr t with
       | some t =>
@@ -226,7 +315,8 @@ def stepOp (a : TAcc) (line : String) : TAcc :=
           let a := if a.runs ≥ 1 then a.tag "rerun" else a
           let a := if !a.s.inLoopQ.isEmpty then a.tag "start-with-queued-work" else a
           let a := if m == "once" then a.tag "once" else a
-          expectLine { (doStep a (.loopStart t (m == "forever"))) with runs := a.runs + 1 } "P running"
+          let a := if a.s.efdFail then a.tag "eventfd-create-failed" else a
+          expectWait (expectLine { (doStep a (.loopStart t (m == "forever"))) with runs := a.runs + 1 } "P running")
       | none => bad
   | ["pass"] => if idle then bad else onePass a false
   | ["stop"] => if idle then bad else onePass a true
@@ -285,6 +375,7 @@ structure PassInfo where
   wake : Bool := false      -- the eventfd callback ran
   exits : Bool := false     -- runLoop returned after this pass
   hasExit : Bool := false   -- a callable of the pass (not of the shutdown drain) called exitLoop()
+  intr : Bool := false      -- the poll was interrupted (injected EINTR)
 deriving Inhabited
 
 structure Pre where
@@ -303,6 +394,7 @@ def preStep (p : Pre) (e : SEv) : Pre :=
   if e.tid != 0 then p else
   match e.kind with
   | "PW" => { p with passes := p.passes.push {}, havePass := true }
+  | "PI" => p.updLast fun i => { i with intr := true }
   | "RB" => { p with havePass := false }
   | "RE" => if p.havePass then { (p.updLast fun i => { i with exits := true }) with havePass := false } else p
   | "LA" => if p.inCall then p else { p with secOpen := true }
@@ -330,6 +422,7 @@ structure R where
   pred : List (Nat × Nat) := []                  -- submitter thread → run id the model handed out
   secW : List Nat := []                          -- threads whose open section has written the eventfd
   rb : Bool := false
+  efSeen : Bool := false                         -- eventfd() returned: the next critical section of the loop thread is loop start
   inCall : Bool := false
   pendAct : Bool := false                        -- AI seen, its critical section not yet closed
   pendActKey : Nat := 0
@@ -344,8 +437,9 @@ structure R where
   tags : List String := []
   execs : Nat := 0
   cancels : Nat := 0
+  sel : Bool := false
 
-def R.cfg (r : R) : Cfg := fixedCfg fun k => r.prog.getD k []
+def R.cfg (r : R) : Cfg := { fixedCfg (fun k => r.prog.getD k []) with selectEngine := r.sel }
 def R.fail (r : R) (m : String) : R := if r.err.isSome then r else { r with err := some s!"history event #{r.n}: {m}" }
 def R.tag (r : R) (t : String) : R := if r.tags.contains t then r else { r with tags := r.tags ++ [t] }
 def R.step (r : R) (st : Step) : R :=
@@ -423,11 +517,21 @@ def exitAct (r : R) (st : Step) : R :=
   let r := if r.s.exitTimer then { r with internal := (r.s.nextAlloc + 2) :: r.internal } else r
   r.step st
 
+/-- `drainEnd`; in a destructor the first one is ~CommonLoop deleting the exit timer (an armed one posts an internal task) -/
+def endDrain (r : R) : R :=
+  let r := if r.s.destroying && !r.s.userCleanup && !r.s.finalDrain && r.s.exitTimer then
+             { r with internal := (r.s.nextAlloc + 2) :: r.internal } else r
+  r.step .drainEnd
+
 def passBeginAt (r : R) : R :=
   let p := r.pass
+  let r := if p.intr then (r.step (.fault (.poll .intr))).tag "poll-eintr" else r
+  let r := if p.intr && !r.s.inLoopQ.isEmpty then r.tag "poll-eintr-with-work-queued" else r
+  -- no virtual clock in this mode: the exit timer fires in the pass in which the loop was seen to leave without exitLoop()
+  let r := if p.exits && !p.hasExit && r.s.exitTimer then r.step (.tick (r.s.exitAt - r.s.clock)) else r
   let r := r.step .passBegin
   let r := if p.exits && !p.hasExit then
-             (if r.s.exitTimer then (r.step .timerExit).tag "exit-timer-fired"
+             (if r.s.timerDue then (r.step .timerExit).tag "exit-timer-fired"
               else r.fail "runLoop returned although exitLoop() was not called and no exit timer was armed")
            else r
   if r.err.isSome then r else
@@ -467,8 +571,9 @@ def replayEv (r : R) (e : SEv) : R :=
   else
     -- the loop thread
     match e.kind with
-    | "AT" => if r.inCall then r.fail "unexpected AT" else (exitAct r (.idleAct 0 .exitLater)).tag "exit-timer-armed"
+    | "AT" => if r.inCall then r.fail "unexpected AT" else (exitAct r (.idleAct 0 (.exitLater 20000))).tag "exit-timer-armed"
     | "RB" => { r with rb := true }
+    | "EF" => { r with efSeen := true }
     | "LA" => if r.inCall then { r with secEW := false } else { r with secOpen := true, secER := false, secEW := false }
     | "ER" => { r with secER := true }
     | "EW" => if e.a == 1 then { r with secEW := true } else r
@@ -489,14 +594,15 @@ def replayEv (r : R) (e : SEv) : R :=
           | none => r
         else
           let r := { r with secOpen := false }
-          if r.rb && r.s.phase == .idle then
+          if r.rb && !r.efSeen && r.s.phase == .idle && !r.secEW then r      -- runLoop() asking isRunning() before it starts
+          else if r.rb && r.s.phase == .idle then
             let commit := !r.s.inLoopQ.isEmpty && !r.s.hasCommit
             let r := if !r.s.inLoopQ.isEmpty then r.tag "start-with-queued-work" else r
             let r := if r.s.log.any (fun x => x matches .start _) then r.tag "rerun" else r
             let r := r.step (.loopStart 0 true)
             let r := if !r.secEW && commit then r.fail "loop start: work is queued but the eventfd was not written (lost wake-up)"
                      else if r.secEW && !commit then r.tag "M:extra-eventfd-write" else r
-            { r with rb := false }
+            { r with rb := false, efSeen := false }
           else if r.secER then
             -- a pass that ran the eventfd callback: the poll's sample is linearised here (see above)
             let r := passBeginAt r
@@ -512,7 +618,7 @@ def replayEv (r : R) (e : SEv) : R :=
             if r.s.phase != .drain then r.fail s!"runThisAfterLoop ran but the model's loop is {phaseName r.s.phase} (exitLoop not called?)"
             else if !r.s.dQ.isEmpty || (drainMore r.s) then
               r.fail s!"shutdown drain returned although {showKey (r.keyOfId.getD ((r.s.dQ ++ r.s.nextQ ++ r.s.inLoopQ).head!).id 0)} is still pending and fewer than 100 generations ran (task dropped)"
-            else { (r.step .drainEnd) with drainOpen := false }
+            else { (endDrain r) with drainOpen := r.s.destroying && !r.s.finalDrain }
     | "PW" =>
         let r := if r.s.phase == .poll then r else finishPass r
         if r.err.isSome then r else
@@ -556,12 +662,17 @@ def replayEv (r : R) (e : SEv) : R :=
     | "DE" =>
         let r := flushInternal r
         if r.err.isSome then r else
+        if !valid r.s .drainEnd then r.fail "destructor returned with tasks pending before 100 generations (task dropped)" else
+        -- ~CommonLoop: the exit timer is deleted (an armed one posts an internal task), second drain
+        -- (the epoll engine's destructor drains through cleanup(): its first drain ended at the release of lock_)
+        let r := if !r.s.finalDrain then flushInternal (endDrain r) else r
+        if r.err.isSome then r else
         if valid r.s .drainEnd then { (r.step .drainEnd) with drainOpen := false }
         else r.fail "destructor returned with tasks pending before 100 generations (task dropped)"
     | _ => r
 
 /-- consume the history of one stress op from the implementation lines -/
-def stressOp (a : TAcc) : TAcc :=
+def stressOp (a : TAcc) (sel : Bool := false) : TAcc :=
   if a.err.isSome then a else
   let a := { a with nops := a.nops + 1 }
   let (h, rest) := a.tl.span (fun l => !(l.startsWith "H done"))
@@ -575,7 +686,7 @@ def stressOp (a : TAcc) : TAcc :=
   if evs.size != nEv then a.fail "unparsable history event" else
   let submittedTotal := (h.filterMap fun l => match words l with | ["H", "sub", _, _, n] => n.toNat? | _ => none).foldl (· + ·) 0
   let pre := evs.foldl preStep ({} : Pre)
-  let r := evs.foldl replayEv ({ prog := pre.prog, passes := pre.passes } : R)
+  let r := evs.foldl replayEv ({ prog := pre.prog, passes := pre.passes, sel := sel } : R)
   let r := if r.err.isSome then r else
     if r.s.phase != .dead then r.fail s!"history ends with the loop {phaseName r.s.phase}"
     else if !(pend r.s).isEmpty && !((pend r.s).all (isInternalTask r)) then
@@ -610,9 +721,10 @@ def finish (d : DS) : List String :=
   let a0 : TAcc := { tl := d.tl.toList }
   let a := d.ops.foldl (fun a l =>
     if isStress l then
-      (if validStress l (a.s.phase == .idle) then stressOp a else expectLine { a with nops := a.nops + 1 } "bad-op")
+      (if validStress l (a.s.phase == .idle) then stressOp (a.tag ("stress-" ++ ((words l).getD 1 ""))) ((words l).getD 1 "" == "select") else expectLine { a with nops := a.nops + 1 } "bad-op")
     else stepOp a l) a0
   let a := finalize a
+  let a := if a.leakOk && a.tl == ["P leaked-memory"] then { a with tl := [] } else a
   let tagsLine := if a.tags.isEmpty then [] else ["B " ++ " ".intercalate a.tags]
   match a.err with
   | some e => tagsLine ++ ["reject " ++ e]
